@@ -19,7 +19,7 @@ CHECKS = {
 BF = "abstract interpretation of rustc MIR on a bit-granular domain (per-bit Boolean functions of symbolic table bits, clause-set Booleans), compared with specification bit functions"
 CHECKS.update({
     "C01": dict(cat="proof", ref="3 C01", technique=BF + "; forms discovered from the trait/inherent impls",
-        text="Every discovered form of NOT/AND/OR/XOR (28 per type: named, in-place, operator traits by value/reference, compound assignment) is run on tables of symbolic bits for each n: the result equals a(m) op b(m) at every position (NOT re-masked above 2^n), has the right size, and borrowed operands are unchanged - for all table contents at once. Sibling forms agree because each equals the same specification; a per-operator form count guards against vacuity.",
+        text="Every discovered form of NOT/AND/OR/XOR (28 per type: named, in-place, operator traits by value/reference, compound assignment) is run on tables of symbolic bits for each n: the result equals a(m) op b(m) at every position (NOT re-masked above 2^n), has the right size, and borrowed operands are unchanged - for all table contents at once. Sibling forms agree because each equals the same specification; a per-operator form count guards against vacuity. Forms taking two shared references are also run with both references to one object.",
         note="Trusted: " + TB + ". n in 0..12 (quick) / StaticLut 0..12 and Lut 0..14 (thorough), loops unrolled per n. Operand tables assumed well formed (C02); size mismatches are C17."),
     "C02": dict(cat="proof", ref="3 C02", technique="ownership rule on ADT field visibility + inductive invariant proved per public producer by bit-granular abstract interpretation of MIR (unused bits constant 0, block count) + abstract summary of eq/cmp",
         text="Inductive invariant over all API histories: the representation fields are private to their module (rustc privacy), and every externally reachable body of those modules that returns or mutates a table is shown, on well-formed symbolic inputs and a partition of valid arguments, to hand back tables with table_size(n) blocks, the right num_vars and constant-0 bits at positions >= 2^n; derived/abstractly summarised eq, hash and cmp compare exactly the representation.",
